@@ -1,6 +1,8 @@
 import Gama.Proto
 import Gama.Model.LinTypes
 import Gama.Gen.Linearization
+import Gama.Gen.XNorth
+import Gama.Model.LinPass
 open Gama Gama.Proto Gama.Lin
 
 /-- fuel for every `while` (the C++ loops run a handful of iterations on sane input) -/
@@ -13,8 +15,13 @@ structure St where
   cs : CS
   rh : Bool
   idx : IdxState
+  last : List (Nat × Float) := []         -- the sparse row of the last observation, as pushed
 
-def St.init : St := ⟨[], [], [], .NE, false, IdxState.init⟩
+def St.init : St := ⟨[], [], [], .NE, false, IdxState.init, []⟩
+
+/-- class name → `Kind` (the inverse of `Kind.className`; `Gen.Lin.visit` is the same dispatch:
+    `Props.C05.C05_kind_is_visit`) -/
+def kindOf? (cls : String) : Option Kind := Kind.all.find? (fun k => k.className = cls)
 
 def St.idOf (s : St) (name : String) : St × Nat :=
   match s.ids.idxOf? name with
@@ -35,7 +42,17 @@ def step (s : St) (line : String) : St × String :=
     match n.toNat? >>= CS.ofNat? with
     | some c => ({ s with cs := c, rh := rh = "1" }, "ok")
     | none => (s, "bad-op")
-  | ["xnorth"] => (s, "ok " ++ showFloat (xNorthAngle s.cs s.rh))
+  | ["xnorth"] => (s, "ok " ++ showFloat (Gen.XNorth.xNorthAngle s.cs s.rh : Float))
+  | ["zero"] =>
+    -- the one textual difference between the three models of bearing_distance: `Scalar.ofNat 0` vs `0`
+    (s, s!"flag {if (Scalar.ofNat 0 : Float).toBits == (0 : Float).toBits then 1 else 0}")
+  | ["asm"] =>
+    -- the last row as its consumers see it: per distinct column the sum of the pushes (`rowSum`) and
+    -- the entry of the dense matrix with the assignment operator of the source (`denseRow`)
+    let cols := rowCols s.last
+    let body := cols.foldl (fun acc c => acc ++ s!" {c} " ++ showFloat (rowSum s.last c) ++ " " ++
+                  showFloat (denseRow Gen.Lin.denseAccumulates s.last c 0)) ""
+    (s, s!"asm {cols.length}{body}")
   | ["idx", id] =>
     match s.ids.idxOf? id with
     | some i => (s, s!"int {s.idx.get ⟨i, .x⟩} {s.idx.get ⟨i, .y⟩} {s.idx.get ⟨i, .z⟩}")
@@ -65,8 +82,8 @@ def step (s : St) (line : String) : St × String :=
     | some k, some o => ({ s with sps := (k, (st, o)) :: s.sps.filter (·.1 ≠ k) }, "ok")
     | _, _ => (s, "bad-op")
   | ["obs", cls, k, frm, to, fs, val] =>
-    match float? val, (Gen.Lin.visit (K := Float) cls) with
-    | some v, some f =>
+    match float? val, kindOf? cls with
+    | some v, some kind =>
       if cls = "Angle" ∧ frm = fs then (s, "throw ctorFromEqualsTo") else
       match ctorValue FUEL cls v with
       | .error .nonPositive => (s, "throw ctorNonPositive")
@@ -81,27 +98,27 @@ def step (s : St) (line : String) : St × String :=
         match sp? with
         | none => (s, "bad-op")
         | some sp =>
-          let ori : Float := match sp with | some e => e.2.2 | none => 0
           let kk : Nat := match sp with | some e => e.1 | none => 0
           let (s, ifrom) := s.idOf frm
           let (s, ito) := s.idOf to
           let (s, ifs) := if fs = "-" then (s, 0) else s.idOf fs
-          let o : Obs Float :=
-            { pfrom := s.pt frm, pto := s.pt to, pfs := s.pt fs, value := v, orientation := ori,
-              xNorth := xNorthAngle s.cs s.rh }
-          let name : Role → Coord → Unk := fun r c =>
-            match r with
-            | .pfrom => ⟨ifrom, c⟩ | .pto => ⟨ito, c⟩ | .pfs => ⟨ifs, c⟩ | .station => ⟨1000000 + kk, c⟩
-          match f FUEL o with
+          -- the network as the pass reads it: points by position in `ids`, stand-point k as 1000000+k
+          let σ : Net Float :=
+            { pt := fun i => match s.ids[i]? with | some name => s.pt name | none => s.pt "",
+              ori := fun j => match s.sps.find? (fun e => 1000000 + e.1 = j) with | some e => e.2.2 | none => 0,
+              xNorth := Gen.XNorth.xNorthAngle s.cs s.rh }
+          let ob : NObs Float := ⟨kind, 1000000 + kk, ifrom, ito, ifs, v⟩
+          match passFrom σ FUEL [ob] s.idx with
           | .error .zeroSlopeDistance => (s, "throw zeroSlopeDistance")
           | .error .zeroZenithAngle => (s, "throw zeroZenithAngle")
           | .error (.other _) => (s, "throw other")
           | .error .fuel => (s, "fuel")
-          | .ok out =>
-            let (idx', rows) := runEvs name out.evs s.idx
+          | .ok res =>
+            let rows := res.rows.headD []
+            let rhs := res.rhs.headD 0
             let body := rows.foldl (fun acc r => acc ++ s!" {r.1} " ++ showFloat r.2) ""
-            ({ s with idx := idx' },
-             s!"lin {showFloat v} {showFloat out.rhs} {rows.length}{body} {idx'.maxn}")
+            ({ s with idx := res.idx, last := rows },
+             s!"lin {showFloat v} {showFloat rhs} {rows.length}{body} {res.idx.maxn}")
     | _, _ => (s, "bad-op")
   | _ => (s, "bad-op")
 
